@@ -33,7 +33,7 @@ func genCase(t *rapid.T) arith.Case {
 		}
 	}
 	arith.FillOperands(t, &c)
-	if c.Op != "pow" && gen.Pick(t, 300, "highprec") == 1 { // (1, not 0: rapid draws the value 0 far more often than 1 in 300)
+	if c.Op != "pow" && gen.Pick(t, 150, "highprec") == 1 { // (1, not 0: rapid draws the value 0 far more often than 1 in 300)
 		// Precisions in the hundreds and thousands: the larger entries of the constant tables
 		// (ln 10 is tabulated at 1, 2, 4, ... 2048 digits) and long series. Exp documents a limit
 		// of 1000 series terms, reached a little above 2200 digits, so the class stops at 2100.
@@ -53,12 +53,17 @@ func genCase(t *rapid.T) arith.Case {
 		if c.Op == "exp" {
 			c.X.Exp = int32(rapid.IntRange(-25, 2-len(c.X.Coeff)).Draw(t, "hpee"))
 			c.X.Neg = rapid.Bool().Draw(t, "hpn")
-			if gen.Pick(t, 4, "hplarge") == 0 {
+			if gen.Pick(t, 3, "hplarge") == 0 {
 				// beyond the reach of the series (|x| > 23 * Precision) at precisions in the thousands
 				v := rapid.IntRange(24000, 200000).Draw(t, "hplv")
 				c.X = core.Dec{Coeff: fmt.Sprint(v) + gen.Digits(t, 3, "hplt"), Neg: rapid.Bool().Draw(t, "hpln")}
 				c.X.Exp = -int32(len(c.X.Coeff) - len(fmt.Sprint(v)))
 				c.Ctx.Emax, c.Ctx.Emin = gen.Limit, -gen.Limit
+				if gen.Pick(t, 2, "hptop") == 0 {
+					// the argument reduction needs ln 10 to Precision + len(k) + 4 digits: around
+					// the largest tabulated entry (2048 digits) it changes where the constant comes from
+					c.Ctx.P = uint32(rapid.IntRange(2030, 2060).Draw(t, "hptopp"))
+				}
 			} else if gen.Pick(t, 3, "hp308") == 0 {
 				// precisions around 308 (where 10^-Precision leaves the float64 range) with
 				// arguments of up to 200 digits just inside what still matters
